@@ -20,6 +20,13 @@ Proof. vm_compute. reflexivity. Qed.
 Lemma nm_cross_check : nm_agrees globals nm_symbols unresolved_refs = true.
 Proof. vm_compute. reflexivity. Qed.
 
+(** no function a wrapped call can reach uses a libc function that keeps its result or position in hidden process-wide state shared by all
+    threads (strtok, getpwuid, getgrgid, localtime, ttyname, getlogin, strerror, ...): the _r variants are used throughout *)
+Lemma libc_calls_are_reentrant : libc_calls_reentrant fn_refs (reachable_fns fn_refs data_refs) = true.
+Proof. vm_compute. reflexivity. Qed.
+Lemma mutex_is_recursive : mutex_recursive tsrm_fns = true.
+Proof. vm_compute. reflexivity. Qed.
+
 (** the fork handlers the code registers (none, or the three recognised kinds) *)
 Definition HS : handlers := match handlers_of tsrm_fns constructors with Some h => h | None => no_handlers end.
 Lemma handlers_recognised : handlers_of tsrm_fns constructors = Some HS.
